@@ -1,8 +1,9 @@
 (* C19 — partition helpers and overlap merging are exact for every size and order.
    Only statements here; proofs live in Proofs/C19_*.v. *)
 From Coq Require Import ZArith List Lia Bool.
-From PR Require Import Base.ZX Base.Slice Model.Partition Gen.GenSubset
-     Model.Unions Proofs.C19_partition Proofs.C19_raa Proofs.C19_divisible Proofs.C19_unions_spec Proofs.C19_unions.
+From PR Require Import Base.ZX Base.Slice Base.Imp Model.Partition Gen.GenSubset Gen.GenC19
+     Model.Unions Proofs.C19_partition Proofs.C19_raa Proofs.C19_divisible Proofs.C19_unions_spec Proofs.C19_unions
+     Proofs.C19_imp_slice Proofs.C19_imp_chunks Proofs.C19_imp_raa Proofs.C19_imp_unions.
 Import ListNotations.
 Open Scope Z_scope.
 
@@ -92,3 +93,81 @@ Theorem C19_row_appendable_every_prefix : forall (A : Type) cap (appends : list 
   raa_to_array (fold_left raa_append (firstn k appends) (raa_init cap)) = map Some (concat (firstn k appends)).
 Proof. intros A cap appends k. exact (@raa_refines_concat A cap (firstn k appends)). Qed.
 Print Assumptions C19_row_appendable_every_prefix.
+
+(* ------------------------------------------------------------------------------------------------------------
+   THE CODE IS THE MODEL.  The imp_* definitions are regenerated on every run from the current /repo sources of
+   _get_slice, _enumerate_chunk_slices, RowAppendableArray.append_row / to_array, _find_union_pair and
+   _merge_unions by tools/py2coq_imp.py (loops, generators, mutation of locals, recursion, over Base/Imp.v);
+   the theorems below say that, on the inputs the property speaks about, they compute what the hand models above
+   compute -- so the theorems above are theorems about what the code says now.  Fuel: any amount beyond the stated
+   bound gives the same finished run; [Fuel] (out of fuel) is never the answer.
+   ------------------------------------------------------------------------------------------------------------ *)
+
+(* _get_slice on a 1-D (rest = []) or 2-D (rest = [w]) shape yields exactly the model's slices, in order
+   (2-D: each paired with slice(None)) *)
+Theorem C19_get_slice_code_is_model : forall segments size rest fuel,
+  1 <= segments -> 0 <= size -> (length rest <= 1)%nat -> (Z.to_nat segments < fuel)%nat ->
+  yields_of (imp_get_slice fuel segments (size :: rest))
+  = Some (map (fun x => match rest with [] => inl x | _ => inr (x, mk_oslice None None) end) (get_slice segments size)).
+Proof. exact imp_get_slice_yields. Qed.
+Print Assumptions C19_get_slice_code_is_model.
+(* ... and outside that domain it raises, as Python does (0-D or >2-D shape: ValueError; zero segments: ZeroDivisionError) *)
+Theorem C19_get_slice_code_rejects : forall segments shape fuel,
+  (length shape = 0 \/ 2 < length shape)%nat -> imp_get_slice fuel segments shape = Raised.
+Proof. exact imp_get_slice_bad_shape. Qed.
+Print Assumptions C19_get_slice_code_rejects.
+Example C19_get_slice_code_ex : yields_of (imp_get_slice 5 3 [10]) = Some [inl (mk_slice 0 4); inl (mk_slice 4 8); inl (mk_slice 8 10)].
+Proof. vm_compute. reflexivity. Qed.
+
+(* _enumerate_chunk_slices yields, in order, exactly the model's blocks (position tuple, slice list), for every chunk tuple *)
+Theorem C19_chunk_slices_code_is_model : forall chunks,
+  yields_of (imp_enumerate_chunk_slices chunks) = Some (map blk_view (enumerate_chunk_slices chunks)).
+Proof. exact imp_enumerate_chunk_slices_yields. Qed.
+Print Assumptions C19_chunk_slices_code_is_model.
+Example C19_chunk_slices_code_ex : yields_of (imp_enumerate_chunk_slices [[2; 1]; [3]])
+  = Some [([0; 0], [mk_slice 0 2; mk_slice 0 3]); ([1; 0], [mk_slice 2 3; mk_slice 0 3])].
+Proof. vm_compute. reflexivity. Qed.
+
+(* RowAppendableArray.append_row, from any state the class can be in, leaves the object in the model's next state
+   (for 1-D and n-D rows alike: ndim is arbitrary) *)
+Theorem C19_append_row_code_is_model : forall (A : Type) (s : @raa A) (rows : list A) (ndim : Z),
+  raa_wf s ->
+  exists st', imp_append_row s (map Some rows) ndim = Fall [] st' /\ imp_append_row_self st' = raa_append s rows.
+Proof. intros A. exact (@imp_append_row_model A). Qed.
+Print Assumptions C19_append_row_code_is_model.
+(* a whole history through the generated code: any non-empty sequence of appends on a fresh object of any
+   capacity >= 0, then to_array(), returns the concatenation of the appended rows *)
+Theorem C19_row_appendable_code_history : forall (A : Type) cap (appends : list (list A)) ndim,
+  0 <= cap -> appends <> [] ->
+  exists s', imp_appends (raa_init cap) appends ndim = Some s' /\
+             value_of (imp_to_array s') = COk (map Some (concat appends)).
+Proof.
+  intros A cap appends ndim Hc Hne.
+  destruct (@imp_history_model A cap appends ndim Hc Hne) as (s' & H1 & H2 & H3).
+  exists s'. split; [exact H1|]. rewrite H2, H3. f_equal. exact (@raa_refines_concat A cap appends).
+Qed.
+Print Assumptions C19_row_appendable_code_history.
+(* to_array() before the first append raises (as np.concatenate of nothing does): the model's [] there is never observed *)
+Theorem C19_to_array_code_unallocated : forall (A : Type) (s : @raa A), r_data s = None -> imp_to_array s = Raised.
+Proof. intros A. exact (@imp_to_array_unallocated A). Qed.
+Print Assumptions C19_to_array_code_unallocated.
+
+(* _find_union_pair returns the first overlapping pair in itertools.combinations order: its two keys and the union *)
+Theorem C19_find_union_pair_code_is_model : forall (G : Type) (overlaps : G -> G -> bool) (union : G -> G -> G) (g0 : G)
+    (l : list (key * G)),
+  value_of (imp_find_union_pair overlaps union g0 l) = COk (option_map (pair_result union) (find_pair overlaps l)).
+Proof. exact @imp_find_union_pair_model. Qed.
+Print Assumptions C19_find_union_pair_code_is_model.
+(* _merge_unions on the dict the class builds from its inputs returns the model's merge_loop result: the recursion
+   (del, del, insert under the pair key, recurse) reaches its fixpoint within len(gs) rounds *)
+Theorem C19_merge_unions_code_is_model : forall (G : Type) (overlaps : G -> G -> bool) (union : G -> G -> G) (g0 : G)
+    (gs : list G) fuel,
+  geom_ok overlaps union -> (length gs < fuel)%nat ->
+  value_of (imp_merge_unions overlaps union g0 fuel (init_entries gs))
+  = COk (merge_loop overlaps union (length gs) (init_entries gs)).
+Proof. exact @imp_merge_unions_init. Qed.
+Print Assumptions C19_merge_unions_code_is_model.
+Example C19_merge_unions_code_ex :
+  value_of (imp_merge_unions lov lun [] 5 (init_entries [[1;2];[3];[2;3];[7]]%nat))
+  = COk (merge_loop lov lun 4 (init_entries [[1;2];[3];[2;3];[7]]%nat)).
+Proof. vm_compute. reflexivity. Qed.
